@@ -339,6 +339,7 @@ fn explore_grammar(ctx: &Ctx, env: &Env, g: &(String, String), depth: usize) {
     let mut stack = vec![Frame { hist: vec![] }];
     let mut visited = 0u64;
     while let Some(fr) = stack.pop() {
+        crate::watchdog::beat();
         if ctx.has_violations() {
             return;
         }
